@@ -22,6 +22,15 @@ CLAIMS = {
          "sorted, and independent of list permutation and of map iteration order; all paths of the bound explored, solver-decided.",
          "Bounds as coded in harness/.../core/validators/paths/zz_verif_c15.go; fmt %q/%s modelled by the engine's fmt intrinsic; ApiValidator's diagnostics wiring not yet covered.",
          "DESIGN.md 4 (C15)"),
+ "C16": ("For every comment line assembled from symbolic parts (name, value, optional JSON5 object from a fixed set, description) and every block of up to 3 lines, the real NewAnnotationHolder/parseCommentNode "
+         "(with the real regexp package executed symbolically on the real parsingRegex) returns exactly the assembled name, value, properties and description, keeps other lines as free text in source order, "
+         "and GetDescription follows the @Description/leading-free-text rule. One recorded grammar limitation (greedy JSON group) is reported as KNOWN-FINDING.",
+         "Bounds as coded in harness/.../core/annotations/zz_verif_c16.go. json5.Unmarshal runs natively inside the engine on the (concretised) group-3 text (trusted library). Whitespace before the comma and descriptions with leading/trailing blanks are assumed away (grammar ambiguity).",
+         "DESIGN.md 4 (C16)"),
+ "C18": ("Range arithmetic: for every text of up to 5 units (ASCII incl. CR/LF, 2- and 3-byte UTF-8 sequences) and every rune-boundary offset, byteOffsetToLineCol equals a rune-counting reference; "
+         "GetValueRange is start<=end, inside the comment's range and covers text equal to the value (or the whole comment when the value is absent), for symbolic start line/column in [0,65535].",
+         "Bounds as coded in harness/.../core/annotations/zz_verif_c18.go. Outside: FileSet positions of a real parse, file attribution, code/severity table, duplicate suppression (see C10).",
+         "DESIGN.md 4 (C18)"),
  "C17": ("Every history of up to 3 public operations (add node of two kinds, add edge, remove edge by kind or all kinds, remove node) with symbolic operands over 3 node ids, 2 file versions and 2 edge kinds, "
          "started from the empty graph: afterwards Exists/Get/GetEdges (outgoing iff incoming, each edge once)/Children/Parents/Descendants/FindByKind of the real SymbolGraph equal a slice-based set-of-nodes/set-of-edges model "
          "(cascade removal as a fixpoint, version replacement). Thorough: 4 operations.",
